@@ -833,7 +833,13 @@ def run(run):
         try:
             f()
         except AnalysisBroken as ex:
-            run.broken(name, 'engine', str(ex))
+            if 'coordinate difference is compared with something other than 0' in str(ex) or 'a coordinate is compared with a constant' in str(ex):
+                # the interval code classifies end points with a tolerance instead of exactly: two edges closer than the tolerance are
+                # ordered differently by different comparisons, so "sorted, disjoint, nothing excluded is offered" cannot hold
+                run.violated(name, 'interval end points are classified exactly', '', 'the interval set no longer only COMPARES end points: %s -- with a tolerance in the classification a '
+                             'removal that starts just past an interval\'s end lengthens it into the excluded range, and insert can split outside the interval' % str(ex)[:220])
+            else:
+                run.broken(name, 'engine', str(ex))
     try:
         from . import vecmodel
         vecmodel.check(run, fx, 'ZONEWRITERS')       # the native Vector model the interpreter uses, checked against List.h's own code
